@@ -1,25 +1,738 @@
-//! C04 — not built yet (stub).
+//! C04 — committed contents follow upsert/delete/rollback semantics.
+//! Correspondence: random call histories over 1–3 writer handles (filesystem and in-memory
+//! storage, positions on/off, compaction, reopen) executed on the real index; after every call the
+//! queue of every handle (`verif_queue`) and the full `(id, stored fields)` set of a fresh reader
+//! are compared with `SL.Contents.step` (mechanism model; the in-memory log is modelled byte by
+//! byte with per-handle write positions).
+//! Finder (implementation alone, no model): contents = fold of the queues the handles actually
+//! held when they committed (queue = the implementation's own log replay at handle creation ++
+//! the handle's own calls), stored fields = what the implementation stores for that version in a
+//! fresh single-document index, one copy per id, nothing visible before commit, rollback discards.
+use crate::idx;
 use crate::proto::Driver;
 use crate::rng::Rng;
 use crate::summary::Summary;
+use crate::util::{guarded, scratch};
 use crate::{Prop, Tier};
-use serde_json::{json, Value};
+use searchlite_core::api::types::IndexOptions;
+use searchlite_core::api::writer::IndexWriter;
+use searchlite_core::api::Index;
+use searchlite_core::storage::{FsStorage, InMemoryStorage, Storage};
+use searchlite_core::wal::{Wal, WalEntry};
+use serde_json::{json, Map, Value};
+use std::collections::{BTreeMap, HashMap};
+use std::path::{Path, PathBuf};
+use std::sync::Arc;
 
-pub struct Stub;
-pub static P: Stub = Stub;
+pub struct C04;
+pub static P: C04 = C04;
 
-impl Prop for Stub {
+// ---------------------------------------------------------------------------------------------
+// shared with C14: storage wrapper, schemas, document generator, canonical form
+// ---------------------------------------------------------------------------------------------
+
+/// one index location, on the filesystem or in an `InMemoryStorage` that survives "reopen"
+pub struct Store {
+  pub dir: tempfile::TempDir,
+  pub mem: Option<Arc<InMemoryStorage>>,
+  pub positions: bool,
+}
+
+impl Store {
+  pub fn new(mem: bool, positions: bool) -> Store {
+    let dir = scratch();
+    let mem = if mem { Some(Arc::new(InMemoryStorage::new(dir.path().to_path_buf()))) } else { None };
+    Store { dir, mem, positions }
+  }
+  pub fn path(&self) -> &Path {
+    self.dir.path()
+  }
+  pub fn opts(&self) -> IndexOptions {
+    let mut o = idx::opts(self.path(), self.mem.is_some());
+    o.enable_positions = self.positions;
+    o
+  }
+  pub fn storage(&self) -> Arc<dyn Storage> {
+    match &self.mem {
+      Some(m) => m.clone(),
+      None => Arc::new(FsStorage::new(self.path().to_path_buf())),
+    }
+  }
+  pub fn create(&self, schema: &Value) -> Result<Index, String> {
+    let s = idx::schema(schema)?;
+    match &self.mem {
+      Some(m) => Index::create_with_storage(self.path(), s, self.opts(), m.clone()).map_err(|e| e.to_string()),
+      None => Index::create(self.path(), s, self.opts()).map_err(|e| e.to_string()),
+    }
+  }
+  pub fn reopen(&self) -> Result<Index, String> {
+    let mut o = self.opts();
+    o.create_if_missing = false;
+    match &self.mem {
+      Some(m) => Index::open_with_storage(o, m.clone()).map_err(|e| e.to_string()),
+      None => Index::open(o).map_err(|e| e.to_string()),
+    }
+  }
+  pub fn wal_path(&self) -> PathBuf {
+    self.path().join("wal.log")
+  }
+  /// the implementation's own replay of the log: (is_add, id, document)
+  pub fn wal_pending(&self) -> Result<Vec<(bool, String, Option<Value>)>, String> {
+    let st = self.storage();
+    let entries = Wal::last_pending_ops(st.as_ref(), &self.wal_path()).map_err(|e| e.to_string())?;
+    Ok(
+      entries
+        .into_iter()
+        .filter_map(|e| match e {
+          WalEntry::AddDoc(d) => {
+            let id = d.fields.get("_id").and_then(|v| v.as_str()).unwrap_or("").to_string();
+            Some((true, id, Some(Value::Object(d.fields.into_iter().collect()))))
+          }
+          WalEntry::DeleteDocId(id) => Some((false, id, None)),
+          WalEntry::Commit => None,
+        })
+        .collect(),
+    )
+  }
+  pub fn manifest_bytes(&self) -> Vec<u8> {
+    self.storage().read_to_end(&self.path().join("MANIFEST.json")).unwrap_or_default()
+  }
+  /// (file name, length) of every file in the index directory (filesystem backend only)
+  pub fn listing(&self) -> Vec<(String, u64)> {
+    let mut out = Vec::new();
+    if self.mem.is_none() {
+      if let Ok(rd) = std::fs::read_dir(self.path()) {
+        for e in rd.flatten() {
+          let len = e.metadata().map(|m| m.len()).unwrap_or(0);
+          out.push((e.file_name().to_string_lossy().to_string(), len));
+        }
+      }
+    }
+    out.sort();
+    out
+  }
+}
+
+fn kw(name: &str, stored: bool, indexed: bool, fast: bool, nullable: bool) -> Value {
+  json!({"name": name, "stored": stored, "indexed": indexed, "fast": fast, "nullable": nullable})
+}
+fn nkw(name: &str, stored: bool, indexed: bool, fast: bool, nullable: bool) -> Value {
+  json!({"type": "keyword", "name": name, "stored": stored, "indexed": indexed, "fast": fast, "nullable": nullable})
+}
+
+/// schema variants.  0: compact-safe, everything nullable inside the nested field.
+/// 1: as 0 plus an indexed, unstored keyword (compaction must refuse).
+/// 2: as 0 but the nested child object `r` is required (non-nullable).
+/// 3: as 0 plus a required, unstored, unindexed nested keyword `q`.
+/// 4: as 0 plus a fast-only (unstored) numeric field (compaction must refuse).
+pub fn schema_json(kind: u64) -> Value {
+  let mut keywords = vec![kw("tag", true, true, true, true), kw("hid", false, false, false, true)];
+  if kind == 1 {
+    keywords.push(kw("sec", false, true, false, true));
+  }
+  let mut numerics = vec![
+    json!({"name": "n", "i64": true, "fast": true, "stored": true, "nullable": false}),
+    json!({"name": "x", "i64": false, "fast": true, "stored": true, "nullable": true}),
+  ];
+  if kind == 4 {
+    numerics.push(json!({"name": "fo", "i64": true, "fast": true, "stored": false, "nullable": true}));
+  }
+  let mut cprops = vec![
+    nkw("a", true, true, true, true),
+    json!({"type": "numeric", "name": "k", "i64": true, "fast": true, "stored": true, "nullable": true}),
+    nkw("u", false, false, false, true),
+    json!({"type": "object", "name": "r", "nullable": kind != 2, "fields": [nkw("t", true, true, true, true)]}),
+  ];
+  if kind == 3 {
+    cprops.push(nkw("q", false, false, false, false));
+  }
+  json!({
+    "doc_id_field": "_id",
+    "text_fields": [{"name": "body", "analyzer": "default", "stored": true, "indexed": true, "nullable": true}],
+    "keyword_fields": keywords,
+    "numeric_fields": numerics,
+    "nested_fields": [{"name": "c", "nullable": true, "fields": cprops}],
+  })
+}
+
+pub const WORDS: [&str; 6] = ["rust", "search", "engine", "lite", "fast", "index"];
+pub const TAGS: [&str; 4] = ["red", "Green", "blue", "RED"];
+pub const AS: [&str; 3] = ["p0", "p1", "P2"];
+pub const TS: [&str; 3] = ["x", "y", "z"];
+
+fn gen_r_obj(rng: &mut Rng) -> Value {
+  match rng.below(4) {
+    0 => json!({"t": null}),
+    1 => json!({}),
+    _ => json!({"t": *rng.pick(&TS)}),
+  }
+}
+
+fn gen_r(rng: &mut Rng) -> Option<Value> {
+  match rng.below(8) {
+    0 => None,
+    1 => Some(Value::Null),
+    2 => Some(json!([])),
+    3 | 4 => Some(gen_r_obj(rng)),
+    _ => {
+      let n = 1 + rng.below(3);
+      Some(Value::Array((0..n).map(|_| if rng.chance(1, 4) { Value::Null } else { gen_r_obj(rng) }).collect()))
+    }
+  }
+}
+
+fn gen_c_obj(rng: &mut Rng, kind: u64) -> Value {
+  let mut m = Map::new();
+  match rng.below(6) {
+    0 => {}
+    1 => {
+      m.insert("a".into(), Value::Null);
+    }
+    2 => {
+      m.insert("a".into(), json!([*rng.pick(&AS), *rng.pick(&AS)]));
+    }
+    _ => {
+      m.insert("a".into(), json!(*rng.pick(&AS)));
+    }
+  }
+  match rng.below(5) {
+    0 => {}
+    1 => {
+      m.insert("k".into(), Value::Null);
+    }
+    2 => {
+      m.insert("k".into(), json!([rng.below(6), rng.below(6)]));
+    }
+    _ => {
+      m.insert("k".into(), json!(rng.below(6)));
+    }
+  }
+  if rng.chance(1, 4) {
+    m.insert("u".into(), json!("hidden"));
+  }
+  match gen_r(rng) {
+    Some(Value::Null) if kind == 2 => {
+      m.insert("r".into(), json!([]));
+    }
+    // a required (non-nullable) child may not contain null elements either
+    Some(Value::Array(a)) if kind == 2 => {
+      m.insert("r".into(), Value::Array(a.into_iter().filter(|x| !x.is_null()).collect()));
+    }
+    Some(r) => {
+      m.insert("r".into(), r);
+    }
+    None if kind == 2 => {
+      m.insert("r".into(), gen_r_obj(rng));
+    }
+    None => {}
+  }
+  if kind == 3 {
+    m.insert("q".into(), json!("req"));
+  }
+  Value::Object(m)
+}
+
+/// a document valid for `schema_json(kind)`; `version` makes every generated version distinct
+pub fn gen_doc(rng: &mut Rng, id: &str, version: u64, kind: u64) -> Value {
+  let mut m = Map::new();
+  m.insert("_id".into(), json!(id));
+  m.insert("n".into(), if rng.chance(1, 6) { json!([version, version + 1000]) } else { json!(version) });
+  match rng.below(5) {
+    0 => {}
+    1 => {
+      m.insert("body".into(), json!([*rng.pick(&WORDS), format!("{} {}", rng.pick(&WORDS), rng.pick(&WORDS))]));
+    }
+    2 => {
+      m.insert("body".into(), Value::Null);
+    }
+    _ => {
+      let k = 1 + rng.below(4);
+      let ws: Vec<&str> = (0..k).map(|_| *rng.pick(&WORDS)).collect();
+      m.insert("body".into(), json!(ws.join(" ")));
+    }
+  }
+  match rng.below(6) {
+    0 => {}
+    1 => {
+      m.insert("tag".into(), json!([]));
+    }
+    2 => {
+      m.insert("tag".into(), json!([*rng.pick(&TAGS), *rng.pick(&TAGS)]));
+    }
+    3 => {
+      m.insert("tag".into(), json!([*rng.pick(&TAGS)]));
+    }
+    _ => {
+      m.insert("tag".into(), json!(*rng.pick(&TAGS)));
+    }
+  }
+  match rng.below(6) {
+    0 => {}
+    1 => {
+      m.insert("x".into(), Value::Null);
+    }
+    2 => {
+      m.insert("x".into(), json!(rng.below(5)));
+    }
+    3 => {
+      m.insert("x".into(), json!([0.5, 2.25]));
+    }
+    _ => {
+      m.insert("x".into(), json!(rng.below(8) as f64 + 0.5));
+    }
+  }
+  if rng.chance(1, 4) {
+    m.insert("hid".into(), json!("secret"));
+  }
+  if kind == 1 && rng.chance(1, 2) {
+    m.insert("sec".into(), json!(*rng.pick(&TAGS)));
+  }
+  if kind == 4 && rng.chance(1, 2) {
+    m.insert("fo".into(), json!(rng.below(9)));
+  }
+  match rng.below(10) {
+    0 | 1 => {}
+    2 => {
+      m.insert("c".into(), Value::Null);
+    }
+    3 => {
+      m.insert("c".into(), json!([]));
+    }
+    4 | 5 => {
+      m.insert("c".into(), gen_c_obj(rng, kind));
+    }
+    _ => {
+      let n = 1 + rng.below(3);
+      m.insert("c".into(), Value::Array((0..n).map(|_| if rng.chance(1, 5) { Value::Null } else { gen_c_obj(rng, kind) }).collect()));
+    }
+  }
+  Value::Object(m)
+}
+
+/// numbers as f64, recursively (the stored form of an integer in a float field is `3.0`)
+pub fn canon(v: &Value) -> Value {
+  match v {
+    Value::Number(n) => n.as_f64().and_then(serde_json::Number::from_f64).map(Value::Number).unwrap_or(Value::Null),
+    Value::Array(a) => Value::Array(a.iter().map(canon).collect()),
+    Value::Object(m) => Value::Object(m.iter().map(|(k, x)| (k.clone(), canon(x))).collect()),
+    x => x.clone(),
+  }
+}
+
+pub fn canon_map(m: &BTreeMap<String, Value>) -> BTreeMap<String, Value> {
+  m.iter().map(|(k, v)| (k.clone(), canon(v))).collect()
+}
+
+fn varint_len(mut n: usize) -> usize {
+  let mut k = 1;
+  while n >= 0x80 {
+    n >>= 7;
+    k += 1;
+  }
+  k
+}
+
+/// byte length of the log record of an add (`Wal::append_add_doc`) / a delete
+pub fn add_record_size(doc: &Value) -> usize {
+  let payload = serde_json::to_vec(&idx::doc(doc)).map(|b| b.len()).unwrap_or(0);
+  varint_len(payload) + 1 + payload + 4
+}
+pub fn del_record_size(id: &str) -> usize {
+  varint_len(id.len()) + 1 + id.len() + 4
+}
+
+/// what the implementation stores for `doc`: ingest it alone into a fresh in-memory index
+pub fn ref_stored(schema: &Value, doc: &Value, cache: &mut HashMap<String, Result<Value, String>>) -> Result<Value, String> {
+  let key = doc.to_string();
+  if let Some(r) = cache.get(&key) {
+    return r.clone();
+  }
+  let r = (|| {
+    let st = Store::new(true, false);
+    let ix = st.create(schema)?;
+    idx::add_commit(&ix, std::slice::from_ref(doc))?;
+    let live = idx::live(&ix)?;
+    live.into_values().next().ok_or_else(|| "reference index is empty".to_string())
+  })();
+  let r = r.map(|v| canon(&v));
+  cache.insert(key, r.clone());
+  r
+}
+
+/// model contents `[[id, stored], …]` → canonical map
+pub fn model_contents(v: &Value) -> BTreeMap<String, Value> {
+  v.as_array().map(|a| a.iter().map(|p| (p[0].as_str().unwrap_or("").to_string(), canon(&p[1]))).collect()).unwrap_or_default()
+}
+
+// ---------------------------------------------------------------------------------------------
+
+fn queue_json(q: &[(bool, String)]) -> Value {
+  Value::Array(q.iter().map(|(a, i)| json!([a, i])).collect())
+}
+
+impl Prop for C04 {
   fn id(&self) -> &'static str {
     "C04"
   }
   fn rule(&self) -> &'static str {
-    "stub"
+    "case = (storage fs|mem, positions on/off, schema variant, call list over ≤3 live writer handles and 6 ids: new/add/delete/commit/rollback/drop/compact/reopen); after EVERY call all handle queues and the full (id, stored fields) set of a fresh reader are compared with the model, and the finder predicates are evaluated; a case is non-trivial when at least one commit applied a non-empty queue AND the history contains an upsert of a committed id or a committed delete AND (two handles were alive at some commit OR compaction ran on ≥2 segments OR the index was reopened)"
   }
-  fn count(&self, _tier: Tier) -> usize {
-    0
+  fn count(&self, tier: Tier) -> usize {
+    tier.pick(60, 600)
   }
-  fn gen(&self, _rng: &mut Rng, _tier: Tier, _i: usize) -> Value {
-    json!(null)
+  fn gen(&self, rng: &mut Rng, tier: Tier, _i: usize) -> Value {
+    let mem = rng.chance(1, 2);
+    let positions = rng.chance(1, 2);
+    let kind = if rng.chance(1, 6) { 1 } else { 0 };
+    let max_calls = tier.pick(60, 300);
+    let n_calls = max_calls / 3 + rng.below(2 * max_calls / 3 + 1);
+    let max_alive = 1 + rng.below(3);
+    // fixed-shape documents: all add records have the same byte length, so that records written
+    // through stale in-memory positions overwrite each other exactly (whole records survive)
+    let uniform = rng.chance(1, 3);
+    let mut alive: Vec<u64> = Vec::new();
+    let mut next_h = 0u64;
+    let mut version = 0u64;
+    let mut calls: Vec<Value> = Vec::new();
+    while calls.len() < n_calls {
+      if alive.is_empty() {
+        calls.push(json!({"op": "new", "h": next_h}));
+        alive.push(next_h);
+        next_h += 1;
+        continue;
+      }
+      let h = *rng.pick(&alive);
+      let id = format!("d{}", rng.below(6));
+      let r = rng.below(100);
+      if r < 10 {
+        // a further handle (it replays the shared log); at the limit one handle is dropped first
+        if alive.len() >= max_alive {
+          calls.push(json!({"op": "drop", "h": h}));
+          alive.retain(|x| *x != h);
+        }
+        calls.push(json!({"op": "new", "h": next_h}));
+        alive.push(next_h);
+        next_h += 1;
+      } else if r < 45 {
+        version += 1;
+        let doc = if uniform {
+          json!({"_id": id, "n": 10 + version % 90, "tag": *rng.pick(&["red", "blu", "grn"])})
+        } else {
+          gen_doc(rng, &id, version, kind)
+        };
+        calls.push(json!({"op": "add", "h": h, "doc": doc}));
+      } else if r < 60 {
+        calls.push(json!({"op": "del", "h": h, "id": id}));
+      } else if r < 77 {
+        calls.push(json!({"op": "commit", "h": h}));
+      } else if r < 81 {
+        calls.push(json!({"op": "rollback", "h": h}));
+      } else if r < 87 {
+        calls.push(json!({"op": "drop", "h": h}));
+        alive.retain(|x| *x != h);
+      } else if r < 96 {
+        calls.push(json!({"op": "compact"}));
+      } else {
+        calls.push(json!({"op": "reopen"}));
+        alive.clear();
+      }
+    }
+    json!({"mem": mem, "positions": positions, "schema_kind": kind, "uniform_docs": uniform, "calls": calls})
   }
-  fn run_case(&self, _drv: &mut Driver, _case: &Value, _s: &mut Summary) {}
+
+  fn run_case(&self, drv: &mut Driver, case: &Value, s: &mut Summary) {
+    let mem = case["mem"].as_bool().unwrap_or(false);
+    let positions = case["positions"].as_bool().unwrap_or(true);
+    let kind = case["schema_kind"].as_u64().unwrap_or(0);
+    let schema = schema_json(kind);
+    let calls: Vec<Value> = case["calls"].as_array().cloned().unwrap_or_default();
+    // ---- model: the whole history in one request (record sizes are a function of the call) ----
+    // VERIF_C04_PERTURB (self-test of the harness only): report wrong sizes for half of the adds
+    let perturb = std::env::var("VERIF_C04_PERTURB").is_ok();
+    let mcalls: Vec<Value> = calls
+      .iter()
+      .map(|c| {
+        let mut c = c.clone();
+        match c["op"].as_str() {
+          Some("add") => c["size"] = json!(add_record_size(&c["doc"]) + if perturb { (c["doc"]["n"].as_u64().unwrap_or(0) % 2) as usize } else { 0 }),
+          Some("del") => c["size"] = json!(del_record_size(c["id"].as_str().unwrap_or(""))),
+          _ => {}
+        }
+        c
+      })
+      .collect();
+    let m = drv.call("C04", json!({"op": "run", "mem": mem, "schema": schema, "calls": mcalls}));
+    let steps: Vec<Value> = m["steps"].as_array().cloned().unwrap_or_default();
+    if m["ok"] != json!(true) || steps.len() != calls.len() {
+      s.case(case, false);
+      s.disagree("contents.driver", case, json!(null), m);
+      return;
+    }
+    s.count(if mem { "storage_mem" } else { "storage_fs" });
+    s.count(if positions { "positions_on" } else { "positions_off" });
+    s.count(&format!("schema_kind_{kind}"));
+    if case["uniform_docs"].as_bool().unwrap_or(false) {
+      s.count("uniform_record_sizes");
+    }
+
+    let store = Store::new(mem, positions);
+    let mut index = match store.create(&schema) {
+      Ok(i) => i,
+      Err(e) => {
+        s.case(case, false);
+        s.fail("contents.create", "index creation failed", case, json!(e));
+        return;
+      }
+    };
+    let mut writers: BTreeMap<u64, IndexWriter> = BTreeMap::new();
+    // finder state (implementation observations only)
+    let mut fq: BTreeMap<u64, Vec<(bool, String, Option<Value>)>> = BTreeMap::new();
+    let mut exp: BTreeMap<String, Value> = BTreeMap::new(); // id -> raw document of the last committed add
+    let mut ideal_log: Vec<(bool, String)> = Vec::new();
+    let mut refcache: HashMap<String, Result<Value, String>> = HashMap::new();
+    let mut prev_live: BTreeMap<String, Value> = BTreeMap::new();
+    // non-triviality bookkeeping
+    let (mut applied, mut upsert_or_delete, mut structure) = (false, false, false);
+    let mut failed_once = false;
+
+    for (k, call) in calls.iter().enumerate() {
+      let op = call["op"].as_str().unwrap_or("");
+      let h = call["h"].as_u64().unwrap_or(0);
+      let ctx = json!({"case": case, "at_call": k});
+      s.count(&format!("call_{op}"));
+      let mut res = "ok".to_string();
+      match op {
+        "new" => {
+          let pending = store.wal_pending().unwrap_or_default();
+          let ids: Vec<(bool, String)> = pending.iter().map(|(a, i, _)| (*a, i.clone())).collect();
+          if ids != ideal_log {
+            s.count("new_handle_log_replay_differs_from_append_order");
+            if !mem && !failed_once {
+              failed_once = true;
+              s.fail("contents.fs-log-replay-not-append-order", "filesystem backend: a new handle's replay differs from the operations appended since the last truncation", &ctx, json!({"replay": queue_json(&ids), "appended": queue_json(&ideal_log)}));
+            }
+          }
+          if std::env::var("VERIF_C04_DEBUG").is_ok() {
+            eprintln!("  before writer(): wal_len={} pending={:?}", store.storage().read_to_end(&store.wal_path()).unwrap_or_default().len(), ids);
+          }
+          match guarded(|| index.writer()) {
+            Ok(Ok(w)) => {
+              if std::env::var("VERIF_C04_DEBUG").is_ok() {
+                eprintln!("  after writer(): wal_len={}", store.storage().read_to_end(&store.wal_path()).unwrap_or_default().len());
+              }
+              writers.insert(h, w);
+              fq.insert(h, pending);
+            }
+            Ok(Err(e)) => res = format!("error: {e}"),
+            Err(p) => res = format!("panic: {p}"),
+          }
+        }
+        "add" => {
+          if let Some(w) = writers.get_mut(&h) {
+            let d = idx::doc(&call["doc"]);
+            let id = call["doc"]["_id"].as_str().unwrap_or("").to_string();
+            match guarded(|| w.add_document(&d)) {
+              Ok(Ok(_)) => {
+                fq.entry(h).or_default().push((true, id.clone(), Some(call["doc"].clone())));
+                ideal_log.push((true, id));
+              }
+              Ok(Err(e)) => res = format!("error: {e}"),
+              Err(p) => res = format!("panic: {p}"),
+            }
+          } else {
+            res = "no_handle".into();
+          }
+        }
+        "del" => {
+          if let Some(w) = writers.get_mut(&h) {
+            let id = call["id"].as_str().unwrap_or("").to_string();
+            match guarded(|| w.delete_document(&id)) {
+              Ok(Ok(_)) => {
+                fq.entry(h).or_default().push((false, id.clone(), None));
+                ideal_log.push((false, id));
+              }
+              Ok(Err(e)) => res = format!("error: {e}"),
+              Err(p) => res = format!("panic: {p}"),
+            }
+          } else {
+            res = "no_handle".into();
+          }
+        }
+        "commit" => {
+          if let Some(w) = writers.get_mut(&h) {
+            let nonempty = !w.verif_queue().is_empty();
+            match guarded(|| w.commit()) {
+              Ok(Ok(_)) => {
+                let q = fq.remove(&h).unwrap_or_default();
+                if nonempty {
+                  applied = true;
+                  ideal_log.clear();
+                  if writers.len() >= 2 {
+                    structure = true;
+                    s.count("commit_with_other_handles_alive");
+                  }
+                  if q.iter().all(|(a, _, _)| !*a) {
+                    s.count("delete_only_commit");
+                  }
+                }
+                for (is_add, id, d) in q {
+                  if exp.contains_key(&id) {
+                    upsert_or_delete = true;
+                  }
+                  if is_add {
+                    exp.insert(id, d.unwrap_or(Value::Null));
+                  } else {
+                    exp.remove(&id);
+                  }
+                }
+                fq.insert(h, Vec::new());
+              }
+              Ok(Err(e)) => res = format!("error: {e}"),
+              Err(p) => res = format!("panic: {p}"),
+            }
+          } else {
+            res = "no_handle".into();
+          }
+        }
+        "rollback" => {
+          if let Some(w) = writers.get_mut(&h) {
+            match guarded(|| w.rollback()) {
+              Ok(Ok(_)) => {
+                fq.insert(h, Vec::new());
+                ideal_log.clear();
+              }
+              Ok(Err(e)) => res = format!("error: {e}"),
+              Err(p) => res = format!("panic: {p}"),
+            }
+          } else {
+            res = "no_handle".into();
+          }
+        }
+        "drop" => {
+          writers.remove(&h);
+          fq.remove(&h);
+        }
+        "compact" => {
+          let nseg = index.manifest().segments.len();
+          match guarded(|| index.compact()) {
+            Ok(Ok(_)) => {
+              if nseg >= 2 {
+                structure = true;
+                s.count("compaction_of_2plus_segments");
+              }
+            }
+            Ok(Err(e)) => {
+              let e = e.to_string();
+              res = if e.contains("cannot compact index") { "refused".into() } else { format!("failed: {e}") };
+            }
+            Err(p) => res = format!("panic: {p}"),
+          }
+        }
+        "reopen" => {
+          writers.clear();
+          fq.clear();
+          match store.reopen() {
+            Ok(i) => {
+              index = i;
+              structure = true;
+            }
+            Err(e) => res = format!("error: {e}"),
+          }
+        }
+        _ => {}
+      }
+      if std::env::var("VERIF_C04_DEBUG").is_ok() {
+        let bytes = store.storage().read_to_end(&store.wal_path()).unwrap_or_default();
+        eprintln!("call {k} {op} h={h} res={res} wal_len={} head={:?}", bytes.len(), &bytes[..bytes.len().min(12)]);
+      }
+      // ---- correspondence: call result, queues, contents ----
+      let step = &steps[k];
+      let res_class = res.split(':').next().unwrap_or("").to_string();
+      if step["res"].as_str() != Some(res_class.as_str()) {
+        s.disagree("contents.call-result", &ctx, json!({"result": res}), json!({"result": step["res"]}));
+        if res_class != "ok" && res_class != "refused" && res_class != "no_handle" {
+          // an error the model does not predict: the histories diverge from here on
+          break;
+        }
+      }
+      let mut mq: BTreeMap<u64, Value> = BTreeMap::new();
+      for p in step["queues"].as_array().cloned().unwrap_or_default() {
+        mq.insert(p[0].as_u64().unwrap_or(0), p[1].clone());
+      }
+      let mut iq: BTreeMap<u64, Value> = BTreeMap::new();
+      for (hid, w) in writers.iter() {
+        let q = w.verif_queue();
+        iq.insert(*hid, queue_json(&q));
+        // finder: the queue is the log replay at creation followed by the handle's own calls
+        let tracked: Vec<(bool, String)> = fq.get(hid).map(|v| v.iter().map(|(a, i, _)| (*a, i.clone())).collect()).unwrap_or_default();
+        if tracked != q && !failed_once {
+          failed_once = true;
+          s.fail("contents.queue-not-replay-plus-own-calls", "a handle's queue is not (log replay at creation ++ its own add/delete calls since the last commit/rollback)", &ctx, json!({"handle": hid, "queue": queue_json(&q), "expected": queue_json(&tracked)}));
+        }
+      }
+      if json!(mq) != json!(iq) {
+        s.disagree("contents.queues", &ctx, json!(iq), json!(mq));
+      }
+      let live = match idx::live(&index) {
+        Ok(l) => canon_map(&l),
+        Err(e) => {
+          if !failed_once {
+            failed_once = true;
+            let sig = if e.starts_with("duplicate") { "contents.duplicate-live-id" } else { "contents.reader-failed" };
+            s.fail(sig, "a fresh reader could not list the live documents once each", &ctx, json!(e));
+          }
+          break;
+        }
+      };
+      let mlive = model_contents(&step["contents"]);
+      if mlive != live {
+        s.disagree("contents.live-set", &ctx, json!(live), json!(mlive));
+      }
+      if model_contents(&step["spec_contents"]) != mlive {
+        s.disagree("contents.model-mechanism-vs-spec", &ctx, json!(null), json!({"mechanism": step["contents"], "spec": step["spec_contents"]}));
+      }
+      // ---- finder: the property statement on the implementation alone ----
+      if !failed_once {
+        let exp_ids: Vec<&String> = exp.keys().collect();
+        let live_ids: Vec<&String> = live.keys().collect();
+        if exp_ids != live_ids {
+          failed_once = true;
+          let sig = match op {
+            "commit" => "contents.commit-wrong-ids",
+            "rollback" => "contents.rollback-changed-contents",
+            "compact" => "contents.compact-changed-ids",
+            "reopen" => "contents.reopen-changed-ids",
+            _ => "contents.queued-operation-visible",
+          };
+          s.fail(sig, "live ids differ from the ids whose last committed operation was an add", &ctx, json!({"live": live_ids, "expected": exp_ids}));
+        } else {
+          for (id, raw) in exp.iter() {
+            let want = ref_stored(&schema, raw, &mut refcache);
+            match want {
+              Ok(wv) if Some(&wv) == live.get(id) => {}
+              Ok(wv) => {
+                failed_once = true;
+                let sig = if op == "compact" { "contents.compact-changed-stored-fields" } else { "contents.stored-fields-not-projection-of-last-add" };
+                s.fail(sig, "stored fields differ from what the implementation stores for the last committed version", &ctx, json!({"id": id, "live": live.get(id), "expected": wv}));
+                break;
+              }
+              Err(e) => {
+                s.count("reference_projection_unavailable");
+                let _ = e;
+              }
+            }
+          }
+        }
+        if !failed_once && op != "commit" && op != "compact" && op != "reopen" && live != prev_live {
+          failed_once = true;
+          s.fail("contents.non-commit-call-changed-reader-view", "a call other than commit/compact changed what a fresh reader sees", &ctx, json!({"before": prev_live, "after": live}));
+        }
+      }
+      prev_live = live;
+      if step["segments"].as_u64() != Some(index.manifest().segments.len() as u64) {
+        s.disagree("contents.segment-count", &ctx, json!(index.manifest().segments.len()), step["segments"].clone());
+      }
+    }
+    s.case(case, applied && upsert_or_delete && structure);
+  }
 }
